@@ -2,8 +2,8 @@
      <segment>* | <schedule token>*      segment = x<hex> | r<hh>*<count> | t<ignored label>     schedule = <n> | <n>*<k>
    The bytes are cut into '\n'-terminated lines (each kept run-length encoded, without its
    '\n') and the rest after the last '\n'; the model only needs the length of that rest.
-   Answer:  R=<OK|E<code>:<line>|P<tag>|FUEL>;cb=<bytes>,<calls>;nr=<reads>;ms=<max space>;T=<files>,<origins>,<publics>,<url>
-            ;;cap=<final capacity>;dropped=<lines discarded>;S=<what C10's spec says> *)
+   Answer:  R=<OK|E<code>:<line>|P<tag>|FUEL>;cb=<bytes>,<calls>;nr=<reads>;ms=<max space>;T=<canonical symbol table>
+            ;;cap=<final capacity>;dropped=<lines discarded>;S=<what C10's spec says>;ST=<its table> *)
 let parse_case (line : string) : (int * int) list * string list =
   let rec go toks runs =
     match toks with
@@ -48,6 +48,57 @@ let expand_sched (toks : string list) =
         List.init k (fun _ -> z_of_int n)
       | None -> [z_of_int (int_of_string t)]) toks
 
+(* ---- canonical text of a symbol table (the same text is produced by harness/src/symcase.rs) ----
+   strings: up to 40 bytes as hex, longer ones as L<length>H<FNV-1a 64>; '-' for the empty string *)
+let str_of_rle (s : (z * z) list) : string =
+  let runs = List.map (fun (b, c) -> (int_of_z b, int_of_z c)) s in
+  let len = List.fold_left (fun a (_, c) -> a + c) 0 runs in
+  if len = 0 then "-"
+  else if len <= 40 then begin
+    let b = Buffer.create 80 in
+    List.iter (fun (x, c) -> for _ = 1 to c do Buffer.add_string b (Printf.sprintf "%02x" x) done) runs;
+    Buffer.contents b
+  end else begin
+    let h = ref 0xcbf29ce484222325L in
+    List.iter (fun (x, c) ->
+        for _ = 1 to c do
+          h := Int64.mul (Int64.logxor !h (Int64.of_int x)) 0x100000001b3L
+        done) runs;
+    Printf.sprintf "L%dH%016Lx" len !h
+  end
+
+let zs = string_of_z
+let cat sep f l = String.concat sep (List.map f l)
+let render_map m = cat "," (fun (k, v) -> zs k ^ ":" ^ str_of_rle v) m
+let render_win l =
+  cat " " (fun ((s, e), w) ->
+      Printf.sprintf "%s-%s:%s:%s:%s:%s:%s:%s:%s:%s:%s" (zs s) (zs e) (zs (wi_addr w)) (zs (wi_size w))
+        (zs (wi_prolog w)) (zs (wi_epilog w)) (zs (wi_params w)) (zs (wi_saved w)) (zs (wi_locals w))
+        (zs (wi_maxstack w))
+        (match wi_thing w with
+         | ProgramString p -> "P" ^ str_of_rle p
+         | AllocatesBasePointer b -> if b then "B1" else "B0")) l
+let render_table (t : table) : string =
+  let funcs = cat " " (fun ((s, e), f) ->
+      Printf.sprintf "%s-%s:%s:%s:%s:%s(%s)(%s)" (zs s) (zs e) (zs (sf_addr f)) (zs (sf_size f)) (zs (sf_psize f))
+        (str_of_rle (sf_name f))
+        (cat "," (fun ((ls, le), l) ->
+             Printf.sprintf "%s-%s:%s:%s:%s:%s" (zs ls) (zs le) (zs (l_addr l)) (zs (l_size l)) (zs (l_file l)) (zs (l_line l)))
+            (sf_lines f))
+        (cat "," (fun i ->
+             Printf.sprintf "%s/%s/%s/%s/%s/%s" (zs (i_depth i)) (zs (i_addr i)) (zs (i_size i)) (zs (i_cfile i))
+               (zs (i_cline i)) (zs (i_origin i))) (sf_inls f))) (t_funcs t) in
+  let cfis = cat " " (fun ((s, e), c) ->
+      Printf.sprintf "%s-%s:%s:%s:%s(%s)" (zs s) (zs e) (zs (cr_addr (sc_init c))) (zs (sc_size c))
+        (str_of_rle (cr_rules (sc_init c)))
+        (cat "," (fun r -> zs (cr_addr r) ^ ":" ^ str_of_rle (cr_rules r)) (sc_add c))) (t_cfi t) in
+  Printf.sprintf "M%s|%s#F%s#O%s#P%s#N%s#C%s#WD%s#WF%s#U%s"
+    (str_of_rle (t_module_id t)) (str_of_rle (t_debug_file t))
+    (render_map (t_files t)) (render_map (t_origins t))
+    (cat "," (fun p -> zs (pb_addr p) ^ ":" ^ zs (pb_psize p) ^ ":" ^ str_of_rle (pb_name p)) (t_publics t))
+    funcs cfis (render_win (t_win_fd t)) (render_win (t_win_fpo t))
+    (match t_url t with Some u -> "S" ^ str_of_rle u | None -> "N")
+
 let cls k c l =
   match int_of_z k with
   | 0 -> "OK"
@@ -65,16 +116,13 @@ let () =
         let conv l = List.map (fun (b, c) -> (z_of_int b, z_of_int c)) l in
         let tail_len = List.fold_left (fun a (_, c) -> a + c) 0 tail in
         let o = run_case (List.map conv lines) (z_of_int tail_len) (expand_sched stoks) in
-        let t =
-          if int_of_z (o_kind o) = 0 then
-            Printf.sprintf "%s,%s,%s,%d" (string_of_z (o_files o)) (string_of_z (o_origins o))
-              (string_of_z (o_publics o)) (if o_url o then 1 else 0)
-          else "-" in
-        Printf.printf "R=%s;cb=%s,%s;nr=%s;ms=%s;T=%s;;cap=%s;dropped=%s;S=%s\n"
+        let t = match o_table o with Some t -> render_table t | None -> "-" in
+        let st = match o_stable o with Some t -> render_table t | None -> "-" in
+        Printf.printf "R=%s;cb=%s,%s;nr=%s;ms=%s;T=%s;;cap=%s;dropped=%s;S=%s;ST=%s\n"
           (cls (o_kind o) (o_code o) (o_line o))
           (string_of_z (o_cb o)) (string_of_z (o_ncb o)) (string_of_z (o_nrd o)) (string_of_z (o_maxsp o)) t
           (string_of_z (o_cap o)) (string_of_z (o_dropped o))
-          (cls (o_skind o) (o_scode o) (o_sline o))
+          (cls (o_skind o) (o_scode o) (o_sline o)) st
       end
     done
   with End_of_file -> ()
